@@ -63,9 +63,11 @@ class Vocab:
                 if val and (not vcs or "numericClass" in vcs):
                     self.value.append((parent, val, "unit"))
                     self.unit_tags.append(parent)
-            elif len(vcs) == 1 and vcs[0] in VALUE_BY_CLASS:
-                self.value.append((parent, VALUE_BY_CLASS[vcs[0]], vcs[0]))
-                if vcs[0] == "numericClass":
+            elif vcs and all(vc in VALUE_BY_CLASS for vc in vcs):
+                # a value is legal when it fits ANY of the tag's value classes: one sample per class
+                for vc in vcs:
+                    self.value.append((parent, VALUE_BY_CLASS[vc], vc))
+                if vcs == ["numericClass"]:
                     self.num_tags.append(parent)
             elif not vcs:
                 pass
@@ -209,12 +211,16 @@ def render(case, vocab, rot, allow_ph=False, style=0, perm=None, ns="", forms=No
         else:
             text = "(" + text
     elif sf == "TAG_EMPTY":
+        gap = ["", " ", "  ", ""][style % 4]          # blanks between the two delimiters of the empty element
+        lead = ["", " ", "", "  "][style % 4]
         if len(parts) >= 2 and rot % 2:
-            text = parts[0] + ",," + sp.join(parts[1:])
+            text = parts[0] + "," + gap + "," + lead + sp.join(parts[1:])
         elif rot % 3 == 0:
-            text = "," + text
+            text = lead + "," + gap + text
+        elif rot % 3 == 1 and parts:
+            text = "(" + gap + "," + lead + text + ")"
         else:
-            text = text + ", ,"
+            text = text + "," + gap + ","
     elif sf == "COMMA_MISSING":
         base = vocab.form(p1, fo, ns)
         text = (text + sp if text else "") + base + " " + "(" + vocab.form(p2, fo, ns) + ")"
